@@ -1,9 +1,10 @@
 import DepsDev.Proofs.C03L3Npm
 
 /-!
-# C03 layer L3 for npm, operator `gt`: one comparator, prerelease candidates
+# C03 layer L3 for npm, operator `gt`: one comparator, prerelease candidates (operands without tag)
 
-See `C03L3Npm` for the statement (`L3Npm`) and the proof script.
+See `C03L3Npm` for the statements and the proof script; `C03L3NpmGtP` has the tagged operands
+and the assembled `L3Npm .gt`.
 -/
 namespace DepsDev.Proofs.C03
 
@@ -13,12 +14,6 @@ set_option linter.unusedSimpArgs false
 set_option linter.unusedVariables false
 
 theorem l3_full_gt : L3Full .gt := by l3_full
-theorem l3_pre_lt_gt : L3PreO .gt .lt := by l3_pre
-theorem l3_pre_eq_gt : L3PreO .gt .eq := by l3_pre
-theorem l3_pre_gt_gt : L3PreO .gt .gt := by l3_pre
 theorem l3_part_gt : L3Part .gt := by l3_part
-
-theorem l3_npm_gt : L3Npm .gt :=
-  l3_assemble _ l3_full_gt (l3_pre_assemble _ l3_pre_lt_gt l3_pre_eq_gt l3_pre_gt_gt) l3_part_gt
 
 end DepsDev.Proofs.C03
